@@ -502,8 +502,15 @@ class Executor:
     def find_fn(self, pattern):
         if pattern in self._fn_cache:
             return self._fn_cache[pattern]
-        rx = re.compile(pattern)
-        hits = [n for n in self.fns if rx.search(n)]
+        # "name regex @@ regex on the type of the first argument": source positions inside `<impl at file:line..>` move with
+        # every edit above them, the (method name, self type) pair does not
+        if " @@ " in pattern:
+            name_re, arg_re = pattern.split(" @@ ", 1)
+            rx, ax = re.compile(name_re), re.compile(arg_re)
+            hits = [n for n, f in self.fns.items() if rx.search(n) and f.args and ax.search(f.args[0][1])]
+        else:
+            rx = re.compile(pattern)
+            hits = [n for n in self.fns if rx.search(n)]
         if len(hits) != 1:
             raise Inconclusive(f"MIR function pattern {pattern!r} matches {len(hits)} functions: {hits[:4]}")
         self._fn_cache[pattern] = self.fns[hits[0]]
